@@ -163,6 +163,38 @@ def compare_log_q(ns, ns2, errs, tag):
                 errs.append((f"resume:{name}.log_q-re-derived-beyond-float32", f"{a.log_q[tuple(i)]!r} vs {b.log_q[tuple(i)]!r} at {tuple(i)} {tag}"))
 
 
+def compare_with_resume(ns, filename, kind, kw, model_name, errs, tag):
+    """Digest of the live sampler that has just been written to `filename` vs the digest of that
+    file resumed into a fresh object.  RNG and global state are left as found."""
+    import torch
+    from nessai.samplers.nestedsampler import NestedSampler
+    from nessai.samplers.importancesampler import ImportanceNestedSampler
+
+    rng = (np.random.get_state(), torch.get_rng_state())
+    try:
+        d1 = std_full_digest(ns) if kind == "std" else ins_full_digest(ns)
+        m2 = make(model_name)
+        cls = NestedSampler if kind == "std" else ImportanceNestedSampler
+        try:
+            ns2 = cls.resume(filename, m2, flow_config=copy.deepcopy(kw.get("flow_config")), weights_path=None)
+            if kind == "std":
+                ns2.initialise()
+                ns2.check_resume()
+            d2 = std_full_digest(ns2) if kind == "std" else ins_full_digest(ns2)
+        except Exception as e:
+            errs.append((f"resume-raises-{type(e).__name__}", f"{e} at {tag}"))
+            return
+        for k_ in d1:
+            if d1[k_] != d2.get(k_):
+                errs.append((f"resume:{k_}-not-restored", f"{tag}: {str(d1[k_])[:80]} vs {str(d2.get(k_))[:80]}"))
+        if kind == "ins":
+            compare_log_q(ns, ns2, errs, tag)
+    finally:
+        np.random.set_state(rng[0])
+        torch.set_rng_state(rng[1])
+        runs.reset_globals_keep_fields(kind)
+
+
 def checkpoint_worker(cfg):
     """Run one configuration; at every checkpoint compare live object vs resumed object."""
     import torch
@@ -293,6 +325,16 @@ def kill_run(cfg, kills):
         last["counter"] = data.model.likelihood_evaluations
         last["time"] = data.model.likelihood_evaluation_time
         last["stime"] = data.sampling_time
+        # a sampler that was itself restored from a checkpoint must again write checkpoints that
+        # restore to what it is (second and later generations; the first few checkpoints of the leg)
+        if legs > 1 and leg.get("gen_checks", 0) < 3:
+            leg["gen_checks"] = leg.get("gen_checks", 0) + 1
+            n0 = len(errs)
+            clk_t, clk_r = clk.t, clk.reads
+            compare_with_resume(data, filename, kind, kw, cfg.get("model", "G2"), errs, f"leg {legs} (resumed sampler), checkpoint at iteration {data.iteration}")
+            clk.t, clk.reads = clk_t, clk_r
+            for i_ in range(n0, len(errs)):
+                errs[i_] = ("generation-2:" + errs[i_][0], errs[i_][1])
         return r
 
     sbase.safe_file_dump = dump
@@ -313,7 +355,7 @@ def kill_run(cfg, kills):
     for c in loops:
         _wrap(c)
     try:
-        with mon.installed(), clk.installed():
+        with mon.installed(), clk.installed(), (runs.std_draw_cap() if kind == "std" else runs.ins_draw_cap()):
             for attempt in range(len(kills) + 2):
                 model = make(cfg.get("model", "G2"))
                 g = Guarded(model)
@@ -337,7 +379,7 @@ def kill_run(cfg, kills):
                         errs.append(("sampling-time-after-resume-differs-from-the-time-at-the-last-checkpoint", f"{st0} vs {last['stime']}"))
                     model.vectorised_likelihood  # force the lazy vectorisation probe now
                     leg.pop("t_loop", None)
-                    leg.update(ck_prev=None, guard=g, c0=c0, rows_setup=g.rows, lt0=vclock.seconds(model.likelihood_evaluation_time), s0=vclock.seconds(st0), t_start=clk.t)
+                    leg.update(gen_checks=0, ck_prev=None, guard=g, c0=c0, rows_setup=g.rows, lt0=vclock.seconds(model.likelihood_evaluation_time), s0=vclock.seconds(st0), t_start=clk.t)
                     g.kcalls = 0
                     if kills:
                         g.kill_call = kills.pop(0)
@@ -375,6 +417,9 @@ def kill_run(cfg, kills):
                     continue
             else:
                 errs.append(("run-did-not-finish", ""))
+    except runs.DrawCap as e:
+        errs.append(("resumed-run-does-not-terminate", str(e)[:300]))
+        fs = None
     except Exception as e:
         import traceback
 
@@ -477,6 +522,8 @@ KILL_CFGS = [
     # and the first checkpoint opportunity after a resume sees the whole down time
     {"kind": "std", "model": "G2", "seed": 0, "kwargs": {"nlive": 10, "poolsize": 10, "checkpoint_on_iteration": False, "checkpoint_interval": 15, "maximum_uninformed": 10}},
     {"kind": "ins", "model": "G2", "seed": 0, "kwargs": {"max_iteration": 3, "checkpoint_on_iteration": False, "checkpoint_interval": 120}},
+    # trainings while the pool is still populated, each followed by a checkpoint
+    {"kind": "std", "model": "G2", "seed": 0, "kwargs": {"nlive": 10, "poolsize": 10, "maximum_uninformed": 10, "training_frequency": 3, "checkpoint_on_training": True, "checkpoint_on_iteration": False, "checkpoint_interval": 15}},
 ]
 
 
